@@ -39,8 +39,9 @@ impl Accumulator {
 
     /// Accumulate a new value into the aggregate state.
     fn accumulate(&mut self, value: &DataType) -> RuntimeResult<()> {
-        // Skip NULL values for most aggregates except COUNT
-        if matches!(value, DataType::Null) && !matches!(self, Accumulator::Count { .. }) {
+        // NULL values are skipped by every aggregate: COUNT(expr) counts the rows where expr is not NULL
+        // (COUNT(*) does not come through here, see `accumulate_star`)
+        if matches!(value, DataType::Null) {
             return Ok(());
         }
 
@@ -91,6 +92,13 @@ impl Accumulator {
             }
         }
         Ok(())
+    }
+
+    /// COUNT(*): counts the row itself, whatever its columns hold.
+    fn accumulate_star(&mut self) {
+        if let Accumulator::Count { count } = self {
+            *count += 1;
+        }
     }
 
     /// Finalize the accumulator and return the aggregate result.
@@ -207,17 +215,13 @@ impl<Child: Executor> HashAggregate<Child> {
         // Accumulate the row
         let evaluator = ExpressionEvaluator::new(&row, &self.input_schema);
         for (i, agg_expr) in self.aggregates.iter().enumerate() {
-            let value = if agg_expr.arg.is_none() {
-                DataType::Null
-            } else if let Some(ref arg) = agg_expr.arg {
-                match arg {
-                    BoundExpression::Star => DataType::Null,
-                    other => evaluator.evaluate_as_single_value(other)?,
+            match agg_expr.arg {
+                None | Some(BoundExpression::Star) => bucket.accumulators[i].accumulate_star(),
+                Some(ref arg) => {
+                    let value = evaluator.evaluate_as_single_value(arg)?;
+                    bucket.accumulators[i].accumulate(&value)?;
                 }
-            } else {
-                DataType::Null
-            };
-            bucket.accumulators[i].accumulate(&value)?;
+            }
         }
 
         Ok(())
